@@ -4,6 +4,7 @@ import Csvq.Model.Text
 import Csvq.Model.Cast
 import Csvq.Model.ParseFloat
 import Csvq.Model.ParseTime
+import Csvq.Model.FormatFloat
 namespace Csvq.Drive
 open Csvq Csvq.Proto
 
@@ -77,6 +78,7 @@ def c06 (cmd : String) (args : List String) : String :=
       | "float" => showVal (castFloat a)
       | "boolean" => showVal (castBoolean a)
       | "ternary" => showVal (castTernary a)
+      | "string" => showOpt showVal (FF.castString a.raw)
       | _ => bad
     | none => bad
   | "sint", [h] =>
@@ -99,6 +101,11 @@ def c06 (cmd : String) (args : List String) : String :=
   | "itext", [i] =>
     match i.toInt? with
     | some i => hex (decText i)
+    | none => bad
+  | "ffmt", [f] =>
+    -- value.Float64ToStr(f, false), Float64ToStr(f, true), strconv.FormatFloat(f, 'e', -1, 64)
+    match parseF f with
+    | some x => hex (FF.fmtF x) ++ " " ++ hex (FF.fmtG x) ++ " " ++ hex (FF.fmtE x)
     | none => bad
   | "prof", [v] =>
     match parseVal v with
